@@ -100,30 +100,45 @@ def check_token_api(tok, src, ctx):
     return None
 
 
+def _offsets(src):
+    """every offset of a short source; for a long one (the conversion is
+    linear in the offset, five passes over every offset would be quadratic)
+    every line boundary, its neighbours and an even sample of ~600 others"""
+    n = len(src)
+    if n <= 1200:
+        return list(range(n))
+    keep = set(range(0, n, max(1, n // 600))) | {n - 1}
+    for i, c in enumerate(src):
+        if c == '\n':
+            keep.update(j for j in (i - 1, i, i + 1) if 0 <= j < n)
+    return sorted(keep)
+
+
 def check_linecol(soup, src, ctx):
-    for i in range(len(src)):
+    offs = _offsets(src)
+    for i in offs:
         got = soup.char_pos_to_line(i)
         exp = line_col(src, i)
         if tuple(got) != exp:
             return fail('line-col', 'char_pos_to_line(%d) = %r, character %r stands at %r in %s'
                         % (i, tuple(got), src[i], exp, short(repr(src), 80)))
-    ctx.count('offsets_checked', len(src))
+    ctx.count('offsets_checked', len(offs))
     # the conversion must not depend on the order of lookups: descending, a
     # seeded shuffle, and "jump forward, then step back one" sequences
     import random as _r
     n = len(src)
-    orders = [range(n - 1, -1, -1)]
-    sh = list(range(n))
+    orders = [offs[::-1]]
+    sh = list(offs)
     _r.Random(n).shuffle(sh)
     orders.append(sh)
-    orders.append([j for i in range(n) for j in (min(i + 2, n - 1), i)] if n else [])
+    orders.append([j for i in offs for j in (min(i + 2, n - 1), i)] if n else [])
     for order in orders:
         for i in order:
             got = soup.char_pos_to_line(i)
             if tuple(got) != line_col(src, i):
                 return fail('line-col', 'char_pos_to_line(%d) = %r after other lookups, character %r stands at %r in %s'
                             % (i, tuple(got), src[i], line_col(src, i), short(repr(src), 80)))
-    ctx.count('offsets_checked_in_other_orders', 4 * n)
+    ctx.count('offsets_checked_in_other_orders', 4 * len(offs))
     return None
 
 
